@@ -7,6 +7,9 @@ Oracle: vf.refparse (reference tokeniser + precedence-climbing parser, strict an
 variants) and metamorphic relations on accepted strings.
 """
 import functools
+
+import numpy as np
+import warnings
 import random
 import itertools
 
@@ -22,7 +25,8 @@ RULE = (
     "cases = formula strings: (a) all token sequences up to a length bound over a 28-symbol alphabet (25 tokens, an illegal character, an opening quote, an opening back-quote) joined by "
     "single spaces, (b) sentences generated from the grammar (unbounded depth) rendered with drawn whitespace and "
     "redundant parentheses, (c) near-miss mutations of those (extra token, dropped closer, second ~, a ~ nested in parentheses, an earlier variable repeated with a level, dropped "
-    "operand), (d) character-level strings; distinct = distinct string; non-trivial = a sentence whose tree puts "
+    "operand), (d) character-level strings, (e) calls whose argument is an operator expression (signed and chained powers, comparisons in a row, "
+    "random expression trees) next to the same call with the argument parenthesised the way it is parsed; distinct = distinct string; non-trivial = a sentence whose tree puts "
     "two operators of different precedence next to each other or chains one operator >= 3 times, or a non-sentence "
     "that has a sentence as a proper token prefix (left-over class), or a string that is not tokenisable"
 )
@@ -231,6 +235,9 @@ def judge(ctx, s, domain, ref_toks=None, expect=None):
 
 
 def replay(ctx, case):
+    if case.get("kind") == "call_value":
+        judge_call_value(ctx, case)
+        return
     if case.get("kind") == "variants":
         judge_variants(ctx, case)
     else:
@@ -594,6 +601,9 @@ def nearmiss_case(draw, leaves):
 
 
 def judge_case(ctx, case):
+    if case.get("kind") == "call_value":
+        judge_call_value(ctx, case)
+        return
     if case.get("kind") == "variants":
         judge_variants(ctx, case)
     else:
@@ -623,8 +633,79 @@ def char_case():
     return st.one_of(raw, mutated())
 
 
+# ---- (e) values of call arguments ------------------------------------------------------------------------------
+@st.composite
+def call_value_case(draw):
+    from vf.checks import c12
+
+    kind = draw(st.sampled_from(["tree", "tree", "chain", "comparisons", "powers"]))
+    if kind == "powers":
+        # a sign in front of a power, powers in a row: the unary sign is above ** and ** is left-associative
+        parts = [draw(st.sampled_from(["x", "z", "w", "2", "1.5", "(x + 1)"]))]
+        for _ in range(draw(st.integers(1, 2))):
+            parts.append(draw(st.sampled_from(["2", "0.5", "3", "z", "-1", "- 2", "w"])))
+        text = draw(st.sampled_from(["-", "- ", "+", "", "-", "3 * -", "w - -"])) + " ** ".join(parts)
+        if draw(st.booleans()):
+            text = text + draw(st.sampled_from([" + z", " * 2", " - 1", " > 0"]))
+        return {"kind": "call_value", "text": text, "wrapper": draw(st.sampled_from(["I", "brace", "probe"]))}
+    if kind == "tree":
+        t = draw(c12.TREE)
+    elif kind == "chain":
+        t = draw(c12.chain())
+    else:
+        t = None
+    seed = draw(st.integers(0, 2**20))
+    if t is not None:
+        text = c12.render(c12._tup(t), random.Random(seed))  # pylint: disable=protected-access
+    else:
+        # comparison operators in a row: binary and left-associative in the formula grammar
+        ops = [draw(st.sampled_from(c12.CMP)) for _ in range(draw(st.integers(2, 3)))]
+        atoms = [draw(st.sampled_from(["x", "z", "w", "1", "2", "1.5", "0.5"])) for _ in range(len(ops) + 1)]
+        text = atoms[0] + "".join(f" {o} {a_}" for o, a_ in zip(ops, atoms[1:]))
+    return {"kind": "call_value", "text": text, "wrapper": draw(st.sampled_from(["I", "brace", "probe"]))}
+
+
+def judge_call_value(ctx, case):
+    """`I(e)` and `I(e fully parenthesised under the documented precedence)` are the same column: what a call computes
+    follows the parse tree of its arguments (unary sign above **, binary operators left-associative)."""
+    from vf.checks import c12
+
+    text, wrapper = case["text"], case["wrapper"]
+    call = {"probe": f"probe({text})", "I": f"I({text})", "brace": "{" + text + "}"}[wrapper]
+    try:
+        ast_ = rp.parse(rp.tokenize(call), False)
+    except rp.Reject:
+        ctx.count(call, False, ["call_value:not_a_sentence"])
+        return
+    deep = rp.full_deep(ast_)
+    ctx.count(call, deep.replace(" ", "") != call.replace(" ", ""), ["call_value:" + wrapper], sample={"formula": f"y ~ 0 + {call}", "parenthesised": deep},
+              stratum="call_value")
+    res = []
+    for c_ in (call, deep):
+        rec = c12.Recorder()
+        try:
+            with core.Guard():
+                with warnings.catch_warnings():
+                    warnings.simplefilter("ignore")
+                    m = np.asarray(c12.lib_design(f"y ~ 0 + {c_}", rec).common.design_matrix, dtype=float)
+            res.append(("ok", m, rec.log))
+        except Exception as e:  # pylint: disable=broad-except
+            res.append(("exc", type(e).__name__, None))
+    a, b = res
+    full = dict(case, formula=f"y ~ 0 + {call}", parenthesised=f"y ~ 0 + {deep}")
+    if a[0] != b[0]:
+        ctx.fail("call_value", full, f"'y ~ 0 + {call}' {'builds' if a[0] == 'ok' else 'raises ' + a[1]} but its fully parenthesised form "
+                 f"'y ~ 0 + {deep}' {'builds' if b[0] == 'ok' else 'raises ' + b[1]}", "status")
+    elif a[0] == "ok" and (a[1].shape != b[1].shape or not np.array_equal(a[1], b[1], equal_nan=True) or a[2] != b[2]):
+        ctx.fail("call_value", full, f"'y ~ 0 + {call}' and its fully parenthesised form 'y ~ 0 + {deep}' are different columns: "
+                 f"{a[1][:3].ravel().tolist()} vs {b[1][:3].ravel().tolist()}", "value")
+
+
 def _hyp_worker(ctx, arg):
     which, shard, n, leaves = arg
+    if which == "call_value":
+        core.run_hypothesis(ctx, call_value_case(), judge_case, n, shard=shard, salt=4)
+        return
     if which == "sentence":
         core.run_hypothesis(ctx, sentence_case(leaves), judge_case, n, shard=shard, salt=1)
     elif which == "nearmiss":
@@ -694,6 +775,7 @@ def run(ctx):
     for k in range(ns):
         which = ["sentence", "nearmiss", "chars", "sentence"][k % 4]
         hyp.append((which, k, per * (3 if which == "chars" else 1), 6 if k < 8 else 16))
+    hyp += [("call_value", 100 + k, 60 if quick else 800, 0) for k in range(ns)]
     ctx.parallel(_hyp_worker, hyp)
     if not quick:
         fuzz_campaign(ctx, 8, 150000)
